@@ -32,7 +32,7 @@ class C07(Prop):
         n = 500 if tier == "quick" else 8000
         for i in range(n):
             g = ac.Gen(random.Random(rng.getrandbits(48)), full=rng.random() < 0.6, depth=rng.choice([1, 2, 2, 3]),
-                       prethread=rng.random() < 0.25)
+                       prethread=rng.random() < 0.25, carried=rng.choice([0.0, 0.0, 0.5]))
             yield {"kind": "trace", "src": g.program(), "xseed": rng.getrandbits(32)}
 
     def impl(self, case):
@@ -43,7 +43,10 @@ class C07(Prop):
         traced = trace_states(case["src"])
         mod = snaxrun.parse(traced)
         f = ac.find_func(mod)
-        conv = ac.Conv(f)
+        try:
+            conv = ac.Conv(f)
+        except ac.Unsupported as e:
+            return {"unmodelled": str(e)}  # outside the model's IR fragment: judged by the oracle only
         points = ac.real_inference_at_points(conv)
         prog = conv.program()
         execs = []
@@ -53,7 +56,7 @@ class C07(Prop):
         return {"prog": prog, "points": points, "execs": execs}
 
     def requests(self, case, impl_out):
-        if "raised" in impl_out or "invalid_input" in impl_out:
+        if "raised" in impl_out or "invalid_input" in impl_out or "unmodelled" in impl_out:
             return []
         p = impl_out["prog"]
         reqs = [{"fn": "c07.analyse", "args": {"body": p["body"], "fields": p["fields"]}}]
@@ -62,7 +65,7 @@ class C07(Prop):
         return reqs
 
     def model(self, case, answers, impl_out):
-        if "raised" in impl_out or "invalid_input" in impl_out:
+        if "raised" in impl_out or "invalid_input" in impl_out or "unmodelled" in impl_out:
             return impl_out  # the model has no syntactic weave: an exception of the real pass is judged by the oracle
         a = answers[0]
         if "err" in a:
@@ -114,6 +117,11 @@ class C07(Prop):
             if bad:
                 return [{"what": f"{bad[0]} (args={args})", "finding": None}]
         return []
+
+    def stats_key(self, case, impl_out):
+        if "unmodelled" in impl_out:
+            return "trace:oracle-only(" + impl_out["unmodelled"] + ")"
+        return super().stats_key(case, impl_out)
 
     def nontrivial(self, case, impl_out):
         return "prog" in impl_out and any(impl_out["points"]) and ("scf.for" in case["src"] or "scf.if" in case["src"])
